@@ -20,6 +20,7 @@ QUICK_S = 45
 THOROUGH_S = 480
 CHUNK = 20
 WORLD_CAP_S = 60
+MINIMISE_S = 12
 HANG_IS_VIOLATION = True
 SELFCHECK_N = {'quick': 8, 'thorough': 30}
 REAL_COMPONENTS = ['pysmi lexer + parser (SmiV2, SmiV1, SmiV1Compat dialects)', 'MibCompiler.compile (share of worlds)', 'FileReader (torn / capped file)', 'HttpReader (cut response body)']
@@ -75,7 +76,7 @@ class ParseTimeout(BaseException):
     pass
 
 
-PARSE_CPU_CAP_S = 4.0     # CPU seconds for one parse of a few KiB (normal: milliseconds)
+PARSE_CPU_CAP_S = 3.0     # CPU seconds for one parse of a few KiB (normal: milliseconds)
 
 
 def _vt_fire(signum, frame):
@@ -293,13 +294,19 @@ def run_compile(scn, J, tier):
     fired = {}
     probes = {}
     fps = []
+    import signal
+    hung = False
     for cut in scn['cuts']:
+        if hung:
+            break
         via = scn['via']
         damaged = f.text[:cut]
         inside = f.inside_module(cut)
         root = None
         base = {'modules': {}, 'requested': [req], 'options': {'ignoreErrors': True}, 'codegen': 'json', 'searchers': [], 'borrowers': []}
         try:
+            oldh = signal.signal(signal.SIGVTALRM, _vt_fire)
+            signal.setitimer(signal.ITIMER_VIRTUAL, PARSE_CPU_CAP_S * 3)
             if via == 'sim':
                 base['sources'] = [{'holds': {req: {'o': 'ok', 'text': damaged}}, 'base': 'all'}]
                 t = cs.run_world(base)
@@ -364,11 +371,17 @@ def run_compile(scn, J, tier):
                     if via == 'http':
                         hc.urlopen = saved
                     cs.get_parser()
+            signal.setitimer(signal.ITIMER_VIRTUAL, 0)
             units += 1
             fired['truncate:' + via] = fired.get('truncate:' + via, 0) + 1
             R = t.R
             what = 'via=%s file=%s cut=%d' % (via, f.name, cut)
-            if t.escaped is not None:
+            if isinstance(t.escaped, ParseTimeout):
+                hung = True
+                cs._cache.pop('parser', None)
+                viol.append({'clause': 'C11.6-terminates', 'key': 'C11.6-terminates|timeout|compile', 'facts': {'what': 'timeout', 'via': via, 'kind': 'compile'},
+                             'message': 'compile() of text cut at %d did not finish within %.0f CPU seconds (%s)' % (cut, PARSE_CPU_CAP_S * 3, what)})
+            elif t.escaped is not None:
                 viol.append({'clause': 'C11.5-compile', 'key': 'C11.5-compile|raised|%s' % via, 'facts': {'what': 'raised', 'via': via, 'exception': type(t.escaped).__name__},
                              'message': 'compile() raised %s on damaged text (%s)' % (type(t.escaped).__name__, what)})
             elif req not in R and not any(n in R for n in names):
@@ -398,7 +411,15 @@ def run_compile(scn, J, tier):
                 probes['compile-status:' + s] = probes.get('compile-status:' + s, 0) + 1
             J.sigs.add((f.name, 'compile', via, str(R.get(req)) if isinstance(R, dict) else 'raised', inside))
             fps.append(t.world.fingerprints(extra=cs.status_digest(t.R))[0])
+        except ParseTimeout:
+            hung = True
+            core._state.world = None
+            core._tls.depth = 0
+            cs._cache.pop('parser', None)
+            viol.append({'clause': 'C11.6-terminates', 'key': 'C11.6-terminates|timeout|compile', 'facts': {'what': 'timeout', 'via': scn['via'], 'kind': 'compile'},
+                         'message': 'compile() of text cut at %d did not finish within %.0f CPU seconds (via=%s file=%s)' % (cut, PARSE_CPU_CAP_S * 3, scn['via'], f.name)})
         finally:
+            signal.setitimer(signal.ITIMER_VIRTUAL, 0)
             if root:
                 core.drop_root(root)
     import hashlib
